@@ -27,11 +27,12 @@ const (
 	cSetIdentity
 	cRawHeads
 	cJoinBounded
+	cMergedFrom
 	cIterStream
 	cNumOps
 )
 
-var copNames = []string{"Append", "Join", "Values", "Heads", "GetEntries", "Get/Has", "Len", "ToSnapshot", "ToJSONLog", "ToMultihash", "Iterator", "SetIdentity", "RawHeads", "Join(size)", "Iterator(streamed)"}
+var copNames = []string{"Append", "Join", "Values", "Heads", "GetEntries", "Get/Has", "Len", "ToSnapshot", "ToJSONLog", "ToMultihash", "Iterator", "SetIdentity", "RawHeads", "Join(size)", "MergedFrom", "Iterator(streamed)"}
 
 type copResult struct {
 	op      int
@@ -43,6 +44,7 @@ type copResult struct {
 	n       int
 	done    bool
 	emap    iface.IPFSLogOrderedEntries // the value GetEntries returned
+	into    *ipfslog.IPFSLog            // MergedFrom: the log that merged the shared log
 }
 
 func runCop(h *hist, L *ipfslog.IPFSLog, other *ipfslog.IPFSLog, op int, g int, res *copResult) {
@@ -81,6 +83,10 @@ func runCop(h *hist, L *ipfslog.IPFSLog, other *ipfslog.IPFSLog, op int, g int, 
 		res.err = L.Iterator(&ipfslog.IteratorOptions{}, ch)
 		res.values, _ = drain(ch, 16)
 		res.values = reverseEntries(res.values)
+	case cMergedFrom:
+		// the shared log is read as the source of another log's merge (through its public accessors)
+		res.into = freshObserver(h, g)
+		_, res.err = res.into.Join(L, -1)
 	case cIterStream:
 		// an unbuffered output: the iterator hands over one entry at a time to a consumer that itself uses the
 		// log between two receives (reads it, and appends once) - streaming must not hold the log's lock
@@ -121,13 +127,18 @@ func H_C13() {
 	L, other := h.logs[0], h.logs[1]
 	G := vx.Param("G", 2)
 	ops := make([]int, G)
+	mergedFrom := vx.Param("MF", 0) == 1 // the last operation is another log merging the shared one (a run of its own)
 	stream := vx.Param("STREAM", 0) == 1 // the last operation is the streamed iterator (a run of its own: it adds a consumer goroutine)
 	for g := range ops {
 		if stream && g == G-1 {
 			ops[g] = cIterStream
 			continue
 		}
-		ops[g] = vx.Choice("cop", cNumOps-1)
+		if mergedFrom && g == G-1 {
+			ops[g] = cMergedFrom
+			continue
+		}
+		ops[g] = vx.Choice("cop", cNumOps-2)
 		if g > 0 {
 			vx.Assume(ops[g-1] <= ops[g]) // unordered combinations
 		}
@@ -243,6 +254,13 @@ func H_C13() {
 			}
 		case cGetHas:
 			vx.Assert("C13", r.n == 0, "Get reports presence consistently")
+		case cMergedFrom:
+			vx.Assert("C13", r.err == nil, "merging from the shared log succeeds")
+			if r.err == nil && !bounded {
+				checkHeads(r.into, "log that merged the shared log during concurrent operations")
+				checkValues(h, r.into, "log that merged the shared log during concurrent operations")
+				vx.Assert("C13", subset(hashSet(before), hashSet(entriesOf(r.into))) && subset(hashSet(entriesOf(r.into)), fset), "a merge from the shared log took a state between the initial and the final one")
+			}
 		}
 	}
 	// concurrent appends are serialised into one chain
